@@ -29,44 +29,193 @@ Record Inv (s : joblist) : Prop := {
   inv_prev_susp : forall i1 i2, i1 <> i2 -> susp_at s i1 -> susp_at s i2 -> susp_at s (prev s)
 }.
 
-(* ---- job IDs (yash-env/src/job/id.rs, JobId::find for %% %+ %- %n) ---- *)
+(* ---- job IDs (yash-env/src/job/id.rs: parse_tail, JobId::find) ------------ *)
 
-Inductive jobid := IdCurrent | IdPrevious | IdNumber (n : nat) (* n >= 1 *).
+Inductive jobid :=
+| IdCurrent                    (* %  %%  %+ *)
+| IdPrevious                   (* %- *)
+| IdNumber (n : N)             (* %n, n >= 1 (NonZeroUsize) *)
+| IdPrefix (p : str)           (* %name *)
+| IdSubstr (p : str).          (* %?name *)
 
-Definition find_job (s : joblist) (id : jobid) : option nat :=
+(* Result<usize, FindError> *)
+Inductive fres := Found (i : nat) | NotFound | Ambiguous.
+
+Definition fres_eqb (a b : fres) : bool :=
+  match a, b with
+  | Found i, Found k => Nat.eqb i k
+  | NotFound, NotFound => true
+  | Ambiguous, Ambiguous => true
+  | _, _ => false
+  end.
+
+Definition jobid_eqb (a b : jobid) : bool :=
+  match a, b with
+  | IdCurrent, IdCurrent => true
+  | IdPrevious, IdPrevious => true
+  | IdNumber n, IdNumber m => N.eqb n m
+  | IdPrefix p, IdPrefix q => str_eqb p q
+  | IdSubstr p, IdSubstr q => str_eqb p q
+  | _, _ => false
+  end.
+
+(* str::starts_with / str::contains (on UTF-8 text a byte-wise match is a
+   code-point-wise match) *)
+Fixpoint starts_with (p name : str) : bool :=
+  match p, name with
+  | [], _ => true
+  | _ :: _, [] => false
+  | a :: p, b :: name => N.eqb a b && starts_with p name
+  end.
+
+Fixpoint str_contains (p name : str) : bool :=
+  starts_with p name ||
+  match name with
+  | [] => false
+  | _ :: name' => str_contains p name'
+  end.
+
+(* the inner fn find_one: first match, then "is there a second one" *)
+Definition find_one (pred : job -> bool) (s : joblist) : fres :=
+  match filter (fun p => pred (snd p)) (iter s) with
+  | [] => NotFound
+  | (i, _) :: [] => Found i
+  | (i, _) :: _ :: _ => Ambiguous
+  end.
+
+Definition of_opt (o : option nat) : fres :=
+  match o with Some i => Found i | None => NotFound end.
+
+(* [N.to_nat] is only applied to numbers below the table size, so that the
+   model stays executable on %18446744073709551615 *)
+Definition find_job (s : joblist) (id : jobid) : fres :=
   match id with
-  | IdCurrent => current_job s
-  | IdPrevious => previous_job s
-  | IdNumber n => match n with
-                  | O => None
-                  | S k => if contains s k then Some k else None
-                  end
+  | IdCurrent => of_opt (current_job s)
+  | IdPrevious => of_opt (previous_job s)
+  | IdNumber n =>
+      if N.eqb n 0 then NotFound
+      else let k := N.pred n in
+           if N.ltb k (N.of_nat (length (slots s))) then
+             (if contains s (N.to_nat k) then Found (N.to_nat k) else NotFound)
+           else NotFound
+  | IdPrefix p => find_one (fun j => starts_with p (jname j)) s
+  | IdSubstr p => find_one (fun j => str_contains p (jname j)) s
+  end.
+
+(* --- parse_tail: the text after the '%' --------------------------------- *)
+
+Definition ch_percent : N := 37.
+Definition ch_plus : N := 43.
+Definition ch_minus : N := 45.
+Definition ch_quest : N := 63.
+
+Definition is_digit (c : N) : bool := N.leb 48 c && N.leb c 57.
+
+(* usize::from_str: an optional '+', then one or more ASCII digits; fails on
+   overflow of 64 bits.  [None] = Err. *)
+Definition usize_limit : N := 18446744073709551616.
+
+Fixpoint digits_value (acc : N) (l : str) : option N :=
+  match l with
+  | [] => Some acc
+  | c :: l =>
+      if is_digit c then
+        let acc' := (acc * 10 + (c - 48))%N in
+        if N.ltb acc' usize_limit then digits_value acc' l else None
+      else None
+  end.
+
+Definition parse_usize (t : str) : option N :=
+  let body := match t with c :: r => if N.eqb c ch_plus then r else t | [] => t end in
+  match body with
+  | [] => None
+  | _ => digits_value 0 body
+  end.
+
+Definition parse_tail (t : str) : jobid :=
+  if str_eqb t [] || str_eqb t [ch_percent] || str_eqb t [ch_plus] then IdCurrent
+  else if str_eqb t [ch_minus] then IdPrevious
+  else match t with
+       | c :: r =>
+           if N.eqb c ch_quest then IdSubstr r
+           else match parse_usize t with
+                | Some n => if N.eqb n 0 then IdPrefix t else IdNumber n
+                | None => IdPrefix t
+                end
+       | [] => IdCurrent
+       end.
+
+(* ---- what the documentation says (Prop form) ------------------------------ *)
+
+Definition name_matches (id : jobid) (j : job) : Prop :=
+  match id with
+  | IdPrefix p => exists r, jname j = p ++ r
+  | IdSubstr p => exists a b, jname j = a ++ p ++ b
+  | _ => False
+  end.
+
+(* [designates s id r]: r is what job ID [id] must resolve to in table [s] *)
+Definition designates (s : joblist) (id : jobid) (r : fres) : Prop :=
+  match id with
+  | IdCurrent =>
+      (* the current job; exists iff the table is non-empty *)
+      (len s = 0 /\ r = NotFound) \/
+      (len s >= 1 /\ r = Found (cur s) /\ exists j, get s (cur s) = Some j)
+  | IdPrevious =>
+      (* the previous job; exists iff there are two jobs; never the current job *)
+      (len s <= 1 /\ r = NotFound) \/
+      (len s >= 2 /\ r = Found (prev s) /\ prev s <> cur s /\ exists j, get s (prev s) = Some j)
+  | IdNumber n =>
+      (* the job whose number is n: numbers are slab indices + 1 *)
+      (exists i j, n = N.of_nat (S i) /\ get s i = Some j /\ r = Found i) \/
+      ((forall i j, get s i = Some j -> n <> N.of_nat (S i)) /\ r = NotFound)
+  | IdPrefix _ | IdSubstr _ =>
+      (* the unique job whose name matches, or an error *)
+      (exists i j, get s i = Some j /\ name_matches id j /\ r = Found i /\
+                   forall i' j', get s i' = Some j' -> name_matches id j' -> i' = i) \/
+      ((forall i j, get s i = Some j -> ~ name_matches id j) /\ r = NotFound) \/
+      ((exists i1 i2 j1 j2, i1 <> i2 /\ get s i1 = Some j1 /\ get s i2 = Some j2 /\
+                            name_matches id j1 /\ name_matches id j2) /\ r = Ambiguous)
   end.
 
 (* ---- observations and the boolean oracle ----------------------------- *)
 
+(* iter(): pid, state, state_changed, is_owned, name *)
+Definition view := (Z * pstate * bool * bool * str)%type.
+
 Record obs := mkObs {
-  o_jobs : list (nat * (Z * pstate * bool * bool));   (* iter(): index, pid, state, state_changed, is_owned *)
+  o_jobs : list (nat * view);                        (* iter(): index, view *)
   o_cur : option nat;                                (* current_job() *)
   o_prev : option nat;                               (* previous_job() *)
   o_find : list (Z * option nat);                    (* find_by_pid(p) for the pids in play *)
-  o_ids : list (option nat)                          (* %+  %-  %1 .. %6 *)
+  o_ids : list (str * jobid * fres)                  (* tail, parse_tail(tail), .find(jobs) *)
 }.
 
-Definition job_view (j : job) : Z * pstate * bool * bool :=
-  (jpid j, jstate j, jchanged j, jowned j).
+Definition job_view (j : job) : view :=
+  (jpid j, jstate j, jchanged j, jowned j, jname j).
 
-Definition observe (pids : list Z) (s : joblist) : obs :=
+Definition observe (pids : list Z) (ids : list str) (s : joblist) : obs :=
   mkObs (map (fun p => (fst p, job_view (snd p))) (iter s))
         (current_job s) (previous_job s)
         (map (fun p => (p, find_by_pid s p)) pids)
-        (map (find_job s) [IdCurrent; IdPrevious; IdNumber 1; IdNumber 2; IdNumber 3;
-                           IdNumber 4; IdNumber 5; IdNumber 6]).
+        (map (fun t => (t, parse_tail t, find_job s (parse_tail t))) ids).
 
-Definition view_eqb (a b : Z * pstate * bool * bool) : bool :=
+(* monomorphic constructors for the terms the harness prints (no implicit
+   arguments to infer: the case files type-check several times faster) *)
+Definition jv (i : nat) (p : Z) (st : pstate) (c o : bool) (n : str) : nat * view :=
+  (i, (p, st, c, o, n)).
+Definition fz (p : Z) (r : option nat) : Z * option nat := (p, r).
+Definition ir (t : str) (id : jobid) (r : fres) : str * jobid * fres := (t, id, r).
+
+Definition view_eqb (a b : view) : bool :=
   match a, b with
-  | (p1, s1, c1, w1), (p2, s2, c2, w2) =>
-      Z.eqb p1 p2 && pstate_eqb s1 s2 && Bool.eqb c1 c2 && Bool.eqb w1 w2
+  | (p1, s1, c1, w1, n1), (p2, s2, c2, w2, n2) =>
+      Z.eqb p1 p2 && pstate_eqb s1 s2 && Bool.eqb c1 c2 && Bool.eqb w1 w2 && str_eqb n1 n2
+  end.
+
+Definition idres_eqb (a b : str * jobid * fres) : bool :=
+  match a, b with
+  | (t1, i1, r1), (t2, i2, r2) => str_eqb t1 t2 && jobid_eqb i1 i2 && fres_eqb r1 r2
   end.
 
 Definition obs_eqb (a b : obs) : bool :=
@@ -74,12 +223,14 @@ Definition obs_eqb (a b : obs) : bool :=
   && option_eqb Nat.eqb (o_cur a) (o_cur b)
   && option_eqb Nat.eqb (o_prev a) (o_prev b)
   && list_eqb (pair_eqb Z.eqb (option_eqb Nat.eqb)) (o_find a) (o_find b)
-  && list_eqb (option_eqb Nat.eqb) (o_ids a) (o_ids b).
+  && list_eqb idres_eqb (o_ids a) (o_ids b).
 
-Definition v_pid (v : Z * pstate * bool * bool) : Z := match v with (p, _, _, _) => p end.
-Definition v_state (v : Z * pstate * bool * bool) : pstate := match v with (_, s, _, _) => s end.
+Definition v_pid (v : view) : Z := match v with (p, _, _, _, _) => p end.
+Definition v_state (v : view) : pstate := match v with (_, s, _, _, _) => s end.
+Definition v_changed (v : view) : bool := match v with (_, _, c, _, _) => c end.
+Definition v_name (v : view) : str := match v with (_, _, _, _, n) => n end.
 
-Definition lookup_idx (o : obs) (i : nat) : option (Z * pstate * bool * bool) :=
+Definition lookup_idx (o : obs) (i : nat) : option view :=
   match filter (fun p => Nat.eqb (fst p) i) (o_jobs o) with
   | (_, v) :: _ => Some v
   | [] => None
@@ -92,6 +243,65 @@ Fixpoint nodupb {A} (eqb : A -> A -> bool) (l : list A) : bool :=
   match l with
   | [] => true
   | x :: l => negb (existsb (eqb x) l) && nodupb eqb l
+  end.
+
+(* --- the oracle for job IDs: written over the observed table, and with the
+   name tests written differently from the model's ---------------------- *)
+
+Definition o_prefix (p name : str) : bool :=
+  str_eqb p (firstn (length p) name).
+
+Definition o_substr (p name : str) : bool :=
+  existsb (fun k => o_prefix p (skipn k name)) (seq 0 (S (length name))).
+
+(* what [id] must resolve to according to the observed table *)
+Definition resolve_obs (o : obs) (id : jobid) : fres :=
+  let by_name (f : str -> bool) :=
+    match map fst (filter (fun p => f (v_name (snd p))) (o_jobs o)) with
+    | [] => NotFound
+    | [i] => Found i
+    | _ => Ambiguous
+    end in
+  match id with
+  | IdCurrent => of_opt (o_cur o)
+  | IdPrevious => of_opt (o_prev o)
+  | IdNumber n =>
+      match filter (fun p => N.eqb (N.of_nat (S (fst p))) n) (o_jobs o) with
+      | (i, _) :: _ => Found i
+      | [] => NotFound
+      end
+  | IdPrefix p => by_name (o_prefix p)
+  | IdSubstr p => by_name (o_substr p)
+  end.
+
+(* what the text after '%' means, as a relation (boolean): checked on what the
+   real parse_tail returned *)
+Definition all_digits (l : str) : bool := forallb is_digit l.
+
+Definition dec_value (l : str) : N :=
+  fold_left (fun acc c => (acc * 10 + (c - 48))%N) l 0%N.
+
+Definition strip_plus (t : str) : str :=
+  match t with c :: r => if N.eqb c ch_plus then r else t | [] => t end.
+
+Definition is_number_text (t : str) : bool :=
+  let b := strip_plus t in
+  negb (str_eqb b []) && all_digits b && N.ltb 0 (dec_value b) && N.ltb (dec_value b) usize_limit.
+
+Definition special_tail (t : str) : bool :=
+  str_eqb t [] || str_eqb t [ch_percent] || str_eqb t [ch_plus] || str_eqb t [ch_minus].
+
+Definition parse_rel (t : str) (id : jobid) : bool :=
+  match id with
+  | IdCurrent => str_eqb t [] || str_eqb t [ch_percent] || str_eqb t [ch_plus]
+  | IdPrevious => str_eqb t [ch_minus]
+  | IdSubstr p => negb (special_tail t) && str_eqb t (ch_quest :: p)
+  | IdNumber n =>
+      negb (special_tail t) && negb (starts_with [ch_quest] t) &&
+      is_number_text t && N.eqb n (dec_value (strip_plus t))
+  | IdPrefix p =>
+      negb (special_tail t) && negb (starts_with [ch_quest] t) &&
+      negb (is_number_text t) && str_eqb p t
   end.
 
 (* clause k of the oracle failing gives verdict 2+k *)
@@ -114,15 +324,19 @@ Definition inv_obs_clauses (o : obs) : list bool :=
     forallb (fun q => option_eqb Nat.eqb (snd q)
                         (match filter (fun p => Z.eqb (v_pid (snd p)) (fst q)) (o_jobs o) with
                          | (i, _) :: _ => Some i | [] => None end)) (o_find o);
-    (* 6: %+ is the current job, %- the previous job, %n the job with index n-1 *)
-    list_eqb (option_eqb Nat.eqb) (o_ids o)
-      ([o_cur o; o_prev o] ++
-       map (fun k => match lookup_idx o k with Some _ => Some k | None => None end) [0;1;2;3;4;5]);
+    (* 6: % %% %+ resolve to the current job, %- to the previous job, %n to the
+       job with index n-1, %name / %?name to the unique job whose name matches
+       (NotFound / Ambiguous otherwise) *)
+    forallb (fun q => match q with (_, id, r) => fres_eqb r (resolve_obs o id) end) (o_ids o);
     (* 7: a previous job is never reported without a current one or equal to it *)
     match o_prev o, o_cur o with
     | Some p, Some c => negb (Nat.eqb p c)
     | Some _, None => false
-    | None, _ => true end
+    | None, _ => true end;
+    (* 8: (code 10 is raised by [stable_obs]) *)
+    true;
+    (* 9: the text after '%' was parsed as documented *)
+    forallb (fun q => match q with (t, id, _) => parse_rel t id end) (o_ids o)
   ].
 
 Fixpoint first_false (k : N) (l : list bool) : option N :=
@@ -162,7 +376,7 @@ Fixpoint ops_ok (s : joblist) (ops : list op) : bool :=
    `set_current_job(index).unwrap()` on an error). *)
 Definition step_panics (s : joblist) (o : op) : bool :=
   match o with
-  | OInsert pid st => insert_panics s (new_job pid st)
+  | OInsert pid st name => insert_panics s (new_job pid st name)
   | OUpdate pid _ => update_panics s pid
   | _ => false
   end.
